@@ -167,6 +167,15 @@ def body_native(p):
     return ok
 
 
+def body_inflated(p, lens):
+    from harness.c02 import inflate
+    return body_native(inflate(list(p), list(lens)))
+
+
+def body_concat(a, b):
+    return body_native(concat(list(a), list(b)))
+
+
 def body_ladder(k):
     """k mutually crossing pairs (needs k bracket levels): all nine operations"""
     pc = [k + i + 1 for i in range(k)] + [i + 1 for i in range(k)]
@@ -252,6 +261,15 @@ def run(rep, tier):
     pt = allsat.run_family("ladders", "harness.c12", "body_ladder", [(k,) for k in range(1, 8)],
                            ["k mutually crossing pairs, k = 1..7 (k bracket levels)", "all nine operations"], expected=None, chunksize=1)
     parts.append(pt)
+    # stems of different lengths (region order matters for FCFS) and two independent knot groups
+    inp, nq, dt = allsat.inflated_inputs(4, 2, 3)
+    rep.add(transitions=nq, solver_s=dt)
+    parts.append(allsat.run_family("inflated_4_2_3", "harness.c12", "body_inflated", inp, ["knotted 2-arc diagrams, stems of 1..3 pairs", "all nine operations + pairs"],
+                                   expected=None, chunksize=2))
+    if tier != "quick":
+        inp, nq, dt = allsat.inflated_inputs(6, 3, 2)
+        rep.add(transitions=nq, solver_s=dt)
+        parts.append(allsat.run_family("inflated_6_3_2", "harness.c12", "body_inflated", inp, ["knotted 3-arc diagrams, stems of 1..2 pairs"], expected=None, chunksize=2))
     # explicit histories: structures with isolated pairs / knots, all op sequences of length L over the 5 state-relevant ops
     L = 3 if tier == "quick" else 4
     core = [OPS.index(x) for x in ("str", "dot_bracket", "elements", "without_pseudoknots", "without_isolated", "all_dot_brackets")]
